@@ -41,7 +41,7 @@ ANCHORS = {
 def gen_cases(tier, seed):
     n = 96 if tier == "quick" else 1500
     cases = [{"id": f"run{i}", "seed": [seed, i]} for i in range(n)]
-    for i in range(32 if tier == "quick" else 400):
+    for i in range(48 if tier == "quick" else 400):
         cases.append({"id": f"ddp{i}", "family": "ddp", "seed": [seed, "ddp", i]})
     return cases
 
@@ -121,6 +121,14 @@ def _ddp_rank(ds, torch, OM, S, seed, stops, rank, world):
 
     ps = [torch.nn.Parameter(p.detach().clone()) for p in init]
     opt = G.build_optimizer(ds, torch, cfg, ps, distributed_config=dcfg())
+    # keys unique per parameter and block: the blocks this rank owns must be filed under pairwise distinct (parameter, block) ids
+    from ..distlib import find_distributors
+
+    for d_ in find_distributors(opt):
+        ids_ = [tuple(bi.composable_block_ids) for bi in d_.local_block_info_list]
+        if len(set(ids_)) != len(ids_):
+            dup = sorted({i for i in ids_ if ids_.count(i) > 1})
+            raise Violation(f"rank {rank}: two blocks owned by this rank are filed under the same state key {dup[0]} (the later one overwrites the earlier one in optimizer.state, so its tensors never reach a checkpoint)", rank=rank, kind="ddp_block_key_collision", ids=[list(map(str, i)) for i in ids_][:20])
     traj, saved = [], {}
     it = 0
     for t in range(S["T"]):
